@@ -486,6 +486,60 @@ def o_admm(case):
 
 
 # ----------------------------------------------------------------------------
+# re-solve on the SAME array objects (what an outer alternating loop does): cold solve, then a warm
+# re-start from the returned solution with the very same UtM / UtU objects; certificates from pristine copies
+# ----------------------------------------------------------------------------
+def o_resolve(solver):
+    def oracle(case):
+        U, M, cond = build(case)
+        G, B = U.T @ U, U.T @ M
+        sp = 0.0 if case.get("sp") is None else case["sp"]
+        rd = 0.0 if case.get("rd") is None else case["rd"]
+        xref, gref = ref_nnls(U, M, sp, rd)
+        Gs, Bs = G.copy(), B.copy()            # shared by both calls, never used by the oracle
+        if solver == "hals":
+            its = 600 if cond <= 5 else 1500 if cond <= 10 else 3000 if cond <= 20 else 6000
+            kw = {}
+            if case["sp"] is not None:
+                kw["sparsity_coefficient"] = case["sp"]
+            if case["rd"] is not None:
+                kw["ridge_coefficient"] = case["rd"]
+            run = lambda v, n: hals_nnls(Bs, Gs, V=v, n_iter_max=n, tol=1e-24, **kw)
+            floor = 0.0
+        elif solver == "fista":
+            its = 1500 if cond <= 5 else 5000 if cond <= 10 else 12000
+            kw = {}
+            if case["sp"] is not None:
+                kw["sparsity_coef"] = case["sp"]
+            if case["rd"] is not None:
+                kw["ridge_coef"] = case["rd"]
+            run = lambda v, n: fista(Bs, Gs, x=v, n_iter_max=n, tol=0, **kw)
+            floor = 2e-8
+        else:
+            its = 500
+            bs = Bs[:, 0]
+            run = lambda v, n: active_set_nnls(bs, Gs, x=v, n_iter_max=n).reshape(-1, 1)
+            floor = 0.0
+        x1 = run(None, its)
+        kkt(np.array(x1), G, B, sp, rd, 0.0, floor, solver + "/first-call")
+        start = np.array(x1, dtype=float)
+        if solver == "active_set":
+            start = start[:, 0] if (start > 0).any() else None
+        x2 = run(start, its)
+        kkt(np.array(x2), G, B, sp, rd, 0.0, floor, solver + "/re-solve-same-arrays")
+        return _labels(case, cond, xref, gref, [f"pen={'l1' if sp else ''}{'ridge' if rd else ''}"])
+    return oracle
+
+
+@st.composite
+def _resolve_case(draw, vector=False):
+    c = draw(_problem(vector=vector))
+    c["kappa"] = min(c["kappa"], 10.0)          # two solves per case: keep them short
+    c["sp"], c["rd"] = (None, None) if vector else _pen(draw, "pen")
+    return c
+
+
+# ----------------------------------------------------------------------------
 def subchecks(tier):
     subs = []
     variants = [("cold", "plain"), ("cold", "l1"), ("cold", "ridge"), ("cold", "l1ridge"), ("warm", "plain"), ("warm", "pen")]
@@ -502,5 +556,8 @@ def subchecks(tier):
     for init in ("cold", "warm"):
         for grp in ("kkt", "ref"):
             subs.append(SubCheck(f"active_set/{init}/{grp}", _as_case(init), o_as(grp), quick=400, thorough=4000))
+    subs.append(SubCheck("hals/resolve_same_arrays/kkt", _resolve_case(), o_resolve("hals"), quick=25, thorough=150, budget_quick=75))
+    subs.append(SubCheck("fista/resolve_same_arrays/kkt", _resolve_case(), o_resolve("fista"), quick=25, thorough=150, budget_quick=75))
+    subs.append(SubCheck("active_set/resolve_same_arrays/kkt", _resolve_case(vector=True), o_resolve("active_set"), quick=200, thorough=2000))
     subs.append(SubCheck("admm/unconstrained/lstsq", _admm_case(), o_admm, quick=400, thorough=4000))
     return subs
